@@ -4523,7 +4523,7 @@ XPath::predicates(
 
                 // If the index is out of range, or not an integer, just clear subQueryResults...
                 if (theIndex <= 0.0 ||
-                    NodeRefListBase::size_type(theIndex) > theLength ||
+                    theIndex > double(theLength) ||
                     double(NodeRefListBase::size_type(theIndex)) != theIndex)
                 {
                     subQueryResults.clear();
